@@ -280,6 +280,9 @@ func periodRun(r *simrt.Run, tier string, faulty bool) {
 		maxT, maxOps = 8, 10
 	}
 	nTasks := t.Range(2, maxT)
+	if tier != "thorough" && t.Chance(1, 8) {
+		nTasks = t.Range(6, 8) // the quick tier also visits large client groups, less often
+	}
 	nOps := t.Range(1, maxOps)
 	nLim := t.Range(1, 2)
 	offset := time.Duration(t.Intn(w.period*1000+1000)) * time.Millisecond
